@@ -250,6 +250,41 @@ def family_of_type(ty):
     return None
 
 
+def _payload_type(ty):
+    """First generic argument of Option<T> / Result<T,E> / Poll<T> / ControlFlow<B,C> (C)."""
+    t = ty
+    while t.startswith("&"):
+        t = t[1:]
+        if t.startswith("mut "):
+            t = t[4:]
+    i = t.find("<")
+    if i < 0:
+        return None
+    depth = 0
+    args, cur = [], []
+    for c in t[i:]:
+        if c == "<":
+            depth += 1
+            if depth == 1:
+                continue
+        elif c == ">":
+            depth -= 1
+            if depth == 0:
+                break
+        elif c == "," and depth == 1:
+            args.append("".join(cur).strip())
+            cur = []
+            continue
+        cur.append(c)
+    if cur:
+        args.append("".join(cur).strip())
+    if not args:
+        return None
+    if t.startswith("core::ops::control_flow::ControlFlow<"):
+        return args[-1]
+    return args[0]
+
+
 class Test:
     __slots__ = ("bb", "success", "failure", "level", "family", "neg", "local")
 
@@ -377,6 +412,12 @@ def value_tests(f, start_locals, family=None, enum_success=None, follow_await=Tr
                 r = resolve(rv["p"])
                 if r and r[0] == cur and r[1] == "plain" and not fam.startswith("discr:"):
                     tag(x, "discr:" + fam, neg, level)
+                elif r and r[0] == cur and r[1] == "payload":
+                    # discriminant((V as Some).0): test of the nested value
+                    pt = _payload_type(f.locals[cur])
+                    nf = family_of_type(pt) if pt else None
+                    if nf and nf != "bool":
+                        tag(x, "discr:" + nf, False, level if fam == "apoll" else level + 1)
             elif rv["k"] == "un" and rv["op"] == "Not":
                 if op_local(rv["a"]) == cur and fam == "bool":
                     tag(x, "bool", not neg, level)
